@@ -75,6 +75,9 @@ func c11(args []string) {
 					src = fmt.Sprintf(`(defmethod (%s :m) () (vmark "%s:primary"))`, real(op.F), op.F)
 				case "before", "after":
 					src = fmt.Sprintf(`(defmethod (%s :%s :m) () (vmark "%s:%s"))`, real(op.F), op.D, op.F, op.D)
+				case "getv":
+					// a primary method written by the user for the message the accessor of v answers
+					src = fmt.Sprintf(`(defmethod (%s :v) () "user:%s")`, real(op.F), op.F)
 				case "whopper":
 					src = fmt.Sprintf(`(defwhopper (%s :m) () (vmark "%s:win") (continue-whopper) (vmark "%s:wout"))`, real(op.F), op.F, op.F)
 				}
